@@ -404,7 +404,8 @@ func apply(sc *scenario, m manip, st []byte, rng *rand.Rand) []byte {
 // execution of one scenario
 
 type runner struct {
-	tw *vt.Writer
+	tw       *vt.Writer
+	srcCalls int // calls on the underlying reader so far (all scenarios)
 }
 
 func errClass(err error) string {
@@ -518,7 +519,15 @@ func (x *runner) run(sc scenario) {
 		case "NewReader":
 			var err error
 			pan, _ := vt.Try(func() { r, err = mk.newReader(src, altAad) })
-			x.tw.Emit(vt.Ev{"ev": "NewReader", "err": errClass(err), "panic": pan, "calls": src.take()})
+			cl := src.take()
+			x.srcCalls += len(cl)
+			// a constructor has no "clean end": any non-nil error is an error (on an empty stream the subtle
+			// constructors return the bare io.EOF of io.ReadFull; recorded as bareEOF for information)
+			cls := "nil"
+			if err != nil {
+				cls = "ERR"
+			}
+			x.tw.Emit(vt.Ev{"ev": "NewReader", "err": cls, "bareEOF": err == io.EOF, "panic": pan, "calls": cl})
 			if err != nil || pan {
 				return
 			}
@@ -534,6 +543,7 @@ func (x *runner) run(sc scenario) {
 				var err error
 				pan, _ := vt.Try(func() { n, err = r.Read(p) })
 				e := vt.Ev{"ev": "Read", "n": sz, "ret": n, "err": errClass(err), "panic": pan, "calls": src.take(), "post": post}
+				x.srcCalls = x.srcCalls + len(e["calls"].([]srcCall))
 				post = post || err != nil
 				if pan || n < 0 || n > sz {
 					x.tw.Emit(e)
@@ -608,6 +618,8 @@ func main() {
 		genToy(x, *n)
 	case *gen == "arith":
 		genArith(x, *n)
+	case *gen == "sweep":
+		genSweep(x, *n)
 	case *gen == "keyset":
 		genKeyset(x, *n)
 	case *gen == "format":
